@@ -16,6 +16,7 @@ RULE = ("(constraints) PCBO/PCSO histories of 1-3 constraints drawn from the six
         "symbolic original is snapshotted. (reductions) to_qubo/to_quso/to_pubo/to_puso(lam=Symbol) on degree >= 3 models. "
         "Non-trivial = the symbolic model really contains a symbol in >= 2 coefficients; distinct = digest of the history"
         ' Also: symbols named by their strings in every subs form, objective coefficients of numpy / Fraction types next to symbolic weights, every argument form of subs, weights of 2^40, models whose own coefficients are number + k*symbol (coincidental cancellations skipped), symbols inside the constraint polynomial with supplied bounds, a sympy number left after full substitution must equal (==) the number of the numeric build, independence of the result from the original.')
+RULE += " Rounds 9-10: second round after the first subs (another constraint with a new symbol, or update() with a constrained model, on the original or on the result, then subs again), objectives written as products with the symbol, bookkeeping of the substituted model."
 TIERS = {"quick": {"shards": 8, "cases": 120}, "thorough": {"shards": 16, "cases": 5000}}
 FLOOR_BASE = {"quick": 90, "thorough": 2000}    # case counts the floors below were calibrated for; the launcher scales them
 GATES = _sat.ALL + ["eq_" + g for g in _sat.ALL]
